@@ -568,12 +568,12 @@ pub struct C10Lifetimes;
 impl Property for C10Lifetimes {
     type Case = SeqCase;
     fn part(&self) -> &'static str { "listener-lifetimes-seq" }
-    fn decode(&self, u: &mut arbitrary::Unstructured<'_>) -> Option<SeqCase> { decode_seq(u, &SeqGen { kinds: &NON_LOG, configs: &CFGS, max_len: 300, origins: false, weights: [5, 4, 6, 3, 2, 1, 2, 0, 0, 0, 1, 2] }) }
+    fn decode(&self, u: &mut arbitrary::Unstructured<'_>) -> Option<SeqCase> { decode_seq(u, &SeqGen { kinds: &NON_LOG, configs: &CFGS, max_len: 300, origins: true, weights: [5, 4, 6, 3, 2, 1, 2, 0, 0, 0, 1, 2] }) }
     fn strategy(&self, _tier: Tier) -> BoxedStrategy<SeqCase> {
         //                                                      cr dr sd rc ra rl rla rs sr cr ca ln
         prop_oneof![
-            3 => seq_strategy(SeqGen { kinds: &NON_LOG, configs: &CFGS, max_len: 40, origins: false, weights: [5, 4, 6, 3, 2, 1, 2, 0, 0, 0, 1, 2] }),
-            1 => seq_strategy(SeqGen { kinds: &NON_LOG, configs: &CFGS, max_len: 300, origins: false, weights: [5, 4, 6, 3, 2, 1, 2, 0, 0, 0, 1, 2] }),
+            3 => seq_strategy(SeqGen { kinds: &NON_LOG, configs: &CFGS, max_len: 40, origins: true, weights: [5, 4, 6, 3, 2, 1, 2, 0, 0, 0, 1, 2] }),
+            1 => seq_strategy(SeqGen { kinds: &NON_LOG, configs: &CFGS, max_len: 300, origins: true, weights: [5, 4, 6, 3, 2, 1, 2, 0, 0, 0, 1, 2] }),
         ].boxed()
     }
     fn cases(&self, tier: Tier) -> u32 { match tier { Tier::Quick => 20_000, Tier::Thorough => 400_000 } }
@@ -586,7 +586,7 @@ impl Property for C10Lifetimes {
         base_report(case, o, nontrivial, classes, None)
     }
     fn rule(&self) -> String {
-        "generated: histories (up to 40 / up to 300 operations) over {create stream, drop a stream with or without unconsumed events, send (every entry point), receive one / all, release, cancel_all, length queries} on the 5 non-log Multi kinds and the 5 Uni kinds, MAX_STREAMS 1/2/4; creation is only attempted while fewer than MAX_STREAMS streams are live, the Arc kinds are never driven into a full listener queue; \
+        "generated: histories (up to 40 / up to 300 operations) over {create stream, drop a stream with or without unconsumed events, send (every entry point), receive one / all, release, cancel_all, length queries} on the 5 non-log Multi kinds and the 5 Uni kinds, MAX_STREAMS 1/2/4/16, every ring counter of the channel -- the stream-id FIFO included -- starting at 0 or anywhere in the last 64 values before the 32-bit wrap (so 'any number of creations and drops' includes the ones across the wrap); creation is only attempted while fewer than MAX_STREAMS streams are live, the Arc kinds are never driven into a full listener queue; \
          oracle: reference model with one window per listener compared after every step: a listener yields exactly the events accepted while it existed, in order, once, and nothing else (in particular nothing left behind by an earlier listener that had the same stream id); Uni: one shared FIFO; running_streams_count() equals the number of live streams after every step; creating never panics; pending_items_count() follows the model; \
          non-trivial: a listener was dropped with unconsumed events and its stream id was handed out again later".into()
     }
